@@ -16,7 +16,7 @@ mod imp {
     use super::*;
     use crate::guard::{guarded, Fail};
     use crate::types::Tv;
-    use crate::val::{hex, unhex, V};
+    use crate::val::{hex, unhex};
     use agdb::verif::VStorage;
     use agdb::{DbValue, MemoryStorage};
 
@@ -51,11 +51,9 @@ mod imp {
         }
 
         pub fn op_vrt(&mut self, text: &str, ctx: &mut Ctx) -> Option<String> {
-            let v = V::parse(text)?;
-            let value = <DbValue as Tv>::from_v(&v)?;
-            if <DbValue as Tv>::to_v(&value).text() != text {
-                return None;
-            }
+            // end to end: the op line is the original, the value enters through the public conversion
+            let orig = crate::raw::Raw::parse(text)?;
+            let value = orig.build(false);
             let st = self.storage()?;
             let r = guarded(|| {
                 let idx = value.verif_store_db_value(st)?;
@@ -74,13 +72,20 @@ mod imp {
             let out = match r {
                 Ok(Ok((idx, raw, back))) => {
                     let bt = <DbValue as Tv>::to_v(&back).text();
-                    if back != value || bt != text {
-                        ctx.violation(
+                    match orig.diff(&crate::raw::Raw::read(&back)) {
+                        None => {}
+                        Some(true) => ctx.violation(
+                            &format!("C12/float-bits-changed/{}", crate::raw::KIND_NAMES[orig.kind()]),
+                            "an f64 given to the database reads back with the same 64 bits",
+                            text,
+                            &bt,
+                        ),
+                        Some(false) => ctx.violation(
                             "C12/readback/DbValueIndex",
                             "load_db_value(store_db_value(v)) == v",
                             text,
                             &bt,
-                        );
+                        ),
                     }
                     let raw = match raw {
                         Some(b) => format!("x{}", hex(&b)),
